@@ -1,7 +1,13 @@
 // C15 driver: tag WHERE expressions on a REAL tsi1.Index (8 partitions) with a REAL
 // tsdb.SeriesFile in a temp dir, read the way the query layer does it:
 // tsdb.IndexSet.MeasurementSeriesByExprIterator(name, expr); the returned series ids are
-// mapped to series keys through the series file.  One index is built per batch of cases
+// mapped to series keys through the series file.  An index lives through a HISTORY: batch
+// creation (Index.CreateSeriesListIfNotExists, one call per batch, series spread over the
+// partitions), engine-style drops, and queries; every query is a case, judged against the
+// series live at that moment, and carries the history before it (so that the tag-value
+// series-id cache filled by earlier queries and maintained by later batch creations is part of
+// what is tested: query -> batch create of >= 4 new series -> same query again, no reopen).
+// One index is built per batch of cases
 // (series set = random subset of 2 measurements x {k1,k2} x {absent,a,b}, optionally with some
 // series dropped the way tsm1.Engine.deleteSeriesRange drops them) and reused for many
 // expressions.  Go's regexp answers for every (pattern, subject) pair a case can ask are
@@ -58,14 +64,21 @@ type jexpr struct {
 	Typed bool   `json:"typed,omitempty"` // VarRef carries its type (Tag / Float) instead of Unknown
 }
 
+// one step of the history that precedes a case's query
+type jstep struct {
+	T      string    `json:"t"`                // create | drop | query
+	Series []jseries `json:"series,omitempty"` // create: ONE CreateSeriesListIfNotExists batch; drop: engine-style drops
+	Name   string    `json:"name,omitempty"`   // query (result discarded; it fills the index's caches)
+	Expr   *jexpr    `json:"expr,omitempty"`
+}
+
 type jcase struct {
-	Created []jseries `json:"created"`
-	Dropped []int     `json:"dropped,omitempty"` // positions in Created, dropped engine-style
-	Name    string    `json:"name"`
-	Expr    *jexpr    `json:"expr"`
-	ExprStr string    `json:"expr_text"`
-	Out     []int     `json:"impl_out"` // positions (in the live list) of the returned series
-	OutKeys []string  `json:"impl_out_keys"`
+	Steps   []jstep  `json:"history"`
+	Name    string   `json:"name"`
+	Expr    *jexpr   `json:"expr"`
+	ExprStr string   `json:"expr_text"`
+	Out     []int    `json:"impl_out"` // positions (in the live list) of the returned series
+	OutKeys []string `json:"impl_out_keys"`
 }
 
 // ---- real index ----
@@ -79,7 +92,7 @@ type env struct {
 	pos   map[string]int // series key -> position in live
 }
 
-func newEnv(created []jseries, dropped []int) (*env, error) {
+func newEnv() (*env, error) {
 	root, err := os.MkdirTemp("", "c15-")
 	if err != nil {
 		return nil, err
@@ -105,44 +118,81 @@ func newEnv(created []jseries, dropped []int) (*env, error) {
 		}
 	}
 	e.idx.SetFieldSet(fs)
-	keys := make([][]byte, len(created))
-	names := make([][]byte, len(created))
-	tags := make([]models.Tags, len(created))
-	for i, s := range created {
-		keys[i], names[i], tags[i] = s.key(), []byte(s.Name), s.tags()
-	}
-	if len(created) > 0 {
-		if err := e.idx.CreateSeriesListIfNotExists(keys, names, tags); err != nil {
-			return nil, err
-		}
-	}
-	isDropped := map[int]bool{}
-	buf := make([]byte, 0, 256)
-	for _, d := range dropped {
-		isDropped[d] = true
-		id := e.sfile.SeriesID(names[d], tags[d], buf)
-		if id == 0 {
-			return nil, fmt.Errorf("no id for %s", keys[d])
-		}
-		// the sequence of tsm1.Engine.deleteSeriesRange
-		if err := e.idx.DropSeries(id, keys[d], false); err != nil {
-			return nil, err
-		}
-		if _, err := e.idx.DropMeasurementIfSeriesNotExist(names[d]); err != nil {
-			return nil, err
-		}
-		if _, err := e.sfile.DeleteSeriesID(id, true); err != nil {
-			return nil, err
-		}
-	}
 	e.pos = map[string]int{}
-	for i, s := range created {
-		if !isDropped[i] {
-			e.pos[string(s.key())] = len(e.live)
-			e.live = append(e.live, s)
-		}
-	}
 	return e, nil
+}
+
+// apply executes one history step on the live index.
+func (e *env) apply(st jstep) error {
+	switch st.T {
+	case "create":
+		n := len(st.Series)
+		if n == 0 {
+			return nil
+		}
+		keys := make([][]byte, n)
+		names := make([][]byte, n)
+		tags := make([]models.Tags, n)
+		for i, s := range st.Series {
+			keys[i], names[i], tags[i] = s.key(), []byte(s.Name), s.tags()
+		}
+		if err := e.idx.CreateSeriesListIfNotExists(keys, names, tags); err != nil {
+			return err
+		}
+		for _, s := range st.Series {
+			if _, ok := e.pos[string(s.key())]; !ok {
+				e.pos[string(s.key())] = len(e.live)
+				e.live = append(e.live, s)
+			}
+		}
+	case "drop":
+		buf := make([]byte, 0, 256)
+		for _, s := range st.Series {
+			id := e.sfile.SeriesID([]byte(s.Name), s.tags(), buf)
+			if id == 0 {
+				return fmt.Errorf("no id for %s", s.key())
+			}
+			// the sequence of tsm1.Engine.deleteSeriesRange
+			if err := e.idx.DropSeries(id, s.key(), false); err != nil {
+				return err
+			}
+			if _, err := e.idx.DropMeasurementIfSeriesNotExist([]byte(s.Name)); err != nil {
+				return err
+			}
+			if _, err := e.sfile.DeleteSeriesID(id, true); err != nil {
+				return err
+			}
+			var nl []jseries
+			for _, x := range e.live {
+				if string(x.key()) != string(s.key()) {
+					nl = append(nl, x)
+				}
+			}
+			e.live = nl
+		}
+		e.pos = map[string]int{}
+		for i, x := range e.live {
+			e.pos[string(x.key())] = i
+		}
+	case "query":
+		is := tsdb.IndexSet{Indexes: []tsdb.Index{e.idx}, SeriesFile: e.sfile}
+		itr, err := is.MeasurementSeriesByExprIterator([]byte(st.Name), st.Expr.ast())
+		if err != nil {
+			return err
+		}
+		if itr != nil {
+			for {
+				el, err := itr.Next()
+				if err != nil || el.SeriesID == 0 {
+					break
+				}
+			}
+			itr.Close()
+		}
+	default:
+		return fmt.Errorf("bad step %q", st.T)
+	}
+	return nil
 }
 
 func (e *env) close() {
@@ -379,7 +429,34 @@ func run(w *vh.W, e *env, c *jcase) {
 	w.Count("tag_only", fmt.Sprint(tagOnly))
 	w.Count("selected", fmt.Sprint(len(c.Out)))
 	w.Count("live_in_measurement", fmt.Sprint(nMeas))
-	w.Count("dropped", fmt.Sprint(len(c.Dropped)))
+	nCreate, nDrop, nWarm, repeat := 0, 0, 0, false
+	for _, st := range c.Steps {
+		switch st.T {
+		case "create":
+			nCreate++
+			repeat = false
+		case "drop":
+			nDrop += len(st.Series)
+		case "query":
+			nWarm++
+		}
+	}
+	// was the same query asked before the last batch creation?
+	seenBatch := false
+	for i := len(c.Steps) - 1; i >= 0; i-- {
+		st := c.Steps[i]
+		if st.T == "create" {
+			seenBatch = true
+		}
+		if seenBatch && st.T == "query" && st.Name == c.Name && st.Expr.term() == c.Expr.term() {
+			repeat = true
+			break
+		}
+	}
+	w.Count("dropped", fmt.Sprint(nDrop))
+	w.Count("create_batches_before", fmt.Sprint(nCreate))
+	w.Count("queries_before", fmt.Sprint(nWarm/10*10)+"+")
+	w.Count("same_query_asked_before_last_batch", fmt.Sprint(repeat))
 	w.Count("root_op", c.Expr.Op)
 }
 
@@ -483,16 +560,22 @@ func re(op, k string, r int) *jexpr { return &jexpr{Op: op, K: k, R: r} }
 
 func main() {
 	w := vh.New("C15", "From Coq Require Import String.\nFrom Verif Require Import Base.Prelude Model.C15.\nOpen Scope string_scope.", "case", "check")
-	w.Rule = "one case = (index contents, measurement, expression). Index: random subset (density 20-80%) of 2 measurements x {k1,k2} x {absent,a,b} (18 series) created in random order in a real tsi1 index, in 1/3 of the indexes ~25% of the series are then dropped engine-style; ~40 expressions per index. Expressions: depth <= 3 over atoms k (=|!=) v with k in {k1,k2,k3(never a key),_name} and v in {'',a,b,c(never a value)}, k (=~|!~) one of 7 regexes (3 of them match ''), true/false, and (10%) tag-vs-tag / field comparisons outside the property's grammar; AND/OR/parentheses. First come hand-picked cases: every atom shape on a fixed 7-series index. Non-trivial: the measurement has >= 2 live series and the selected set is a non-empty proper subset. Distinct: distinct Gallina terms."
+	w.Rule = "one case = (index contents, measurement, expression). An index lives through a history over the 18 series of 2 measurements x {k1,k2} x {absent,a,b}: one batch creation of 2-9 series, (1/3) engine-style drops of ~25% of them, 16 queries, then up to two more rounds of [ONE CreateSeriesListIfNotExists batch of 4-7 NEW series spread over the 8 partitions, (1/4) drops, ALL earlier queries again on the live index (tag-value series-id cache filled by the earlier queries and maintained by the batch creation), 8 fresh queries]; no reopen. The case carries the whole history before its query (replayed step by step) and is judged against the series live at that moment. Expressions: depth <= 3 over atoms k (=|!=) v with k in {k1,k2,k3(never a key),_name} and v in {'',a,b,c(never a value)}, k (=~|!~) one of 7 regexes (3 of them match ''), true/false, and (10%) tag-vs-tag / field comparisons outside the property's grammar; AND/OR/parentheses. First come hand-picked cases: every atom shape on a fixed 7-series index. Non-trivial: the measurement has >= 2 live series and the selected set is a non-empty proper subset. Distinct: distinct Gallina terms."
 	for _, p := range patterns {
 		compiled = append(compiled, regexp.MustCompile(p))
 	}
-	var rc jcase
-	if w.ReplayCase(&rc) {
-		e, err := newEnv(rc.Created, rc.Dropped)
+	die := func(err error) {
 		if err != nil {
 			fmt.Fprintln(os.Stderr, "driver error:", err)
 			os.Exit(3)
+		}
+	}
+	var rc jcase
+	if w.ReplayCase(&rc) {
+		e, err := newEnv()
+		die(err)
+		for _, st := range rc.Steps {
+			die(e.apply(st))
 		}
 		run(w, e, &rc)
 		e.close()
@@ -528,36 +611,137 @@ func main() {
 		&jexpr{Op: "and", A: &jexpr{Op: "field", K: "f"}, B: atom("eq", "k1", "a")},
 		&jexpr{Op: "and", A: re("re", "_name", 6), B: atom("eq", "k1", "a")},
 	)
-	doBatch := func(created []jseries, dropped []int, exprs []*jexpr, names []string) {
-		e, err := newEnv(created, dropped)
-		if err != nil {
-			fmt.Fprintln(os.Stderr, "driver error:", err)
-			os.Exit(3)
+	// history runner: every query is a case carrying the history before it, and then becomes
+	// part of the history itself
+	type hist struct {
+		e     *env
+		steps []jstep
+	}
+	newHist := func() *hist {
+		e, err := newEnv()
+		die(err)
+		return &hist{e: e}
+	}
+	step := func(h *hist, st jstep) {
+		die(h.e.apply(st))
+		h.steps = append(h.steps, st)
+	}
+	ask := func(h *hist, name string, x *jexpr) bool {
+		if w.Len() >= w.N {
+			return false
 		}
-		defer e.close()
-		for i, x := range exprs {
-			if w.Len() >= w.N {
+		c := jcase{Steps: h.steps[:len(h.steps):len(h.steps)], Name: name, Expr: x}
+		run(w, h.e, &c)
+		h.steps = append(h.steps, jstep{T: "query", Name: name, Expr: x})
+		return true
+	}
+	pick := func(idx []int) []jseries {
+		var out []jseries
+		for _, i := range idx {
+			out = append(out, fixed[i])
+		}
+		return out
+	}
+	// hand-picked 1: fixed index, every atom shape and the compound shapes of the design
+	func() {
+		h := newHist()
+		defer h.e.close()
+		step(h, jstep{T: "create", Series: fixed})
+		for _, x := range hand {
+			if !ask(h, "m", x) {
 				return
 			}
-			c := jcase{Created: created, Dropped: dropped, Name: names[i%len(names)], Expr: x}
-			run(w, e, &c)
 		}
-	}
-	doBatch(fixed, nil, hand, []string{"m"})
-	doBatch(fixed, []int{1, 5}, hand, []string{"m", "n"})
-	for w.Len() < w.N {
-		created, dropped := genIndex(w)
-		var exprs []*jexpr
-		var names []string
-		for i := 0; i < 40; i++ {
-			exprs = append(exprs, genExpr(w, []int{1, 2, 2, 3, 3}[w.Rng.IntN(5)], w.Rng.IntN(10) == 0))
-			n := measNames[w.Rng.IntN(2)]
-			if w.Rng.IntN(25) == 0 {
-				n = "x" // unknown measurement
+	}()
+	// hand-picked 2: part of the fixed index, all queries (fills the tag-value cache), two drops,
+	// then ONE batch with the remaining series, then all queries again on the live index
+	func() {
+		h := newHist()
+		defer h.e.close()
+		step(h, jstep{T: "create", Series: pick([]int{0, 1, 5})})
+		for i, x := range hand {
+			if !ask(h, []string{"m", "n"}[i%2], x) {
+				return
 			}
-			names = append(names, n)
 		}
-		doBatch(created, dropped, exprs, names)
+		step(h, jstep{T: "drop", Series: pick([]int{1})})
+		step(h, jstep{T: "create", Series: append(pick([]int{2, 3, 4, 6}), mk("n", "k1", "b"), mk("n", "k2", "a"), mk("m", "k1", "a", "k2", "a"), mk("n", "k1", "a", "k2", "b"))})
+		for i, x := range hand {
+			if !ask(h, []string{"m", "n"}[i%2], x) {
+				return
+			}
+		}
+	}()
+	genQuery := func() (string, *jexpr) {
+		x := genExpr(w, []int{1, 2, 2, 3, 3}[w.Rng.IntN(5)], w.Rng.IntN(10) == 0)
+		n := measNames[w.Rng.IntN(2)]
+		if w.Rng.IntN(25) == 0 {
+			n = "x" // unknown measurement
+		}
+		return n, x
+	}
+	for w.Len() < w.N {
+		func() {
+			r := w.Rng
+			h := newHist()
+			defer h.e.close()
+			univ := allSeries()
+			r.Shuffle(len(univ), func(i, j int) { univ[i], univ[j] = univ[j], univ[i] })
+			n1 := []int{2, 4, 6, 9}[r.IntN(4)]
+			step(h, jstep{T: "create", Series: univ[:n1]})
+			rest := univ[n1:]
+			maybeDrop := func(p int) {
+				if r.IntN(p) != 0 || len(h.e.live) == 0 {
+					return
+				}
+				var d []jseries
+				for _, s := range h.e.live {
+					if r.IntN(4) == 0 {
+						d = append(d, s)
+					}
+				}
+				if len(d) > 0 {
+					step(h, jstep{T: "drop", Series: d})
+				}
+			}
+			maybeDrop(3)
+			type q struct {
+				n string
+				x *jexpr
+			}
+			var asked []q
+			phases := 1 + r.IntN(3)
+			for ph := 0; ph < phases; ph++ {
+				if ph > 0 {
+					k := 4 + r.IntN(4)
+					if len(rest) < 4 {
+						return
+					}
+					if k > len(rest) {
+						k = len(rest)
+					}
+					step(h, jstep{T: "create", Series: rest[:k]}) // ONE multi-series batch on the live index
+					rest = rest[k:]
+					maybeDrop(4)
+				}
+				for _, a := range asked { // the same queries again, now served from the maintained cache
+					if !ask(h, a.n, a.x) {
+						return
+					}
+				}
+				fresh := 16
+				if ph > 0 {
+					fresh = 8
+				}
+				for i := 0; i < fresh; i++ {
+					n, x := genQuery()
+					asked = append(asked, q{n, x})
+					if !ask(h, n, x) {
+						return
+					}
+				}
+			}
+		}()
 	}
 	_ = strings.Join
 	w.Finish()
